@@ -111,12 +111,17 @@ func fieldInfoForOneof(fd protoreflect.FieldDescriptor, fs reflect.StructField, 
 			return conv.PBValueOf(rv)
 		},
 		set: func(p pointer, v protoreflect.Value) {
+			gv := conv.GoValueOf(v)
+			if isMessage && gv.Kind() == reflect.Ptr && gv.IsNil() {
+				// An empty, read-only message (see Message.Get) cannot be stored.
+				panic(fmt.Sprintf("field %v has invalid nil pointer", fd.FullName()))
+			}
 			rv := p.Apply(fieldOffset).AsValueOf(fs.Type).Elem()
 			if rv.IsNil() || rv.Elem().Type().Elem() != ot || rv.Elem().IsNil() {
 				rv.Set(reflect.New(ot))
 			}
 			rv = rv.Elem().Elem().Field(0)
-			rv.Set(conv.GoValueOf(v))
+			rv.Set(gv)
 		},
 		mutable: func(p pointer) protoreflect.Value {
 			if !isMessage {
